@@ -11,6 +11,7 @@ use crate::{utils, Metainfo};
 use std::fs;
 use std::fs::File;
 use std::io::{BufReader, BufWriter, Read, Seek, Write};
+use std::path::Component;
 use tokio::sync::mpsc;
 
 pub struct Extractor {
@@ -37,6 +38,18 @@ impl Extractor {
 
     fn extract_files(&self) -> Result<(), Box<dyn std::error::Error>> {
         for (path, start, end) in self.metainfo.file_piece_ranges().iter() {
+            // Refuse absolute paths and parent directory components (path traversal)
+            if path
+                .components()
+                .any(|c| !matches!(c, Component::Normal(_) | Component::CurDir))
+            {
+                return Err(std::io::Error::new(
+                    std::io::ErrorKind::InvalidInput,
+                    "File path points outside of download directory",
+                )
+                .into());
+            }
+
             // Create directories if needed
             if let Some(parent) = path.parent() {
                 fs::create_dir_all(parent)?;
